@@ -176,6 +176,16 @@ def gen_cases(rng, tier):
     cases = []   # (op, fields..., expectation)
     for c in CORPUS:
         cases.append(c)
+    # round 10 (seed C09j): one parameter at two positions of ONE angle-bracketed list, the later
+    # one a bare argument given a constant: equal constants match, different ones (or a type
+    # first and a constant later) never do, whatever was bound first
+    consts = ['2', '3', 'N', '{ 1 + 1 }', '_ŠČ0', 'u8']
+    for c1 in consts:
+        for c2 in consts:
+            for pat, inst in (('W<_ŠČ0, _ŠČ0>', 'W<%s, %s>'), ('W<_ŠČ0, u8, _ŠČ0>', 'W<%s, u8, %s>'), ('W<[u8; _ŠČ0], _ŠČ0>', 'W<[u8; %s], %s>'),
+                              ('W<Q<_ŠČ0>, _ŠČ0>', 'W<Q<%s>, %s>'), ('(W<_ŠČ0>, W<_ŠČ0>)', '(W<%s>, W<%s>)')):
+                cases.append(('sup_ty', pat, inst % (c1, c2), 'any' if c1 == c2 else 'neg'))
+            cases.append(('sup_path', 'a::Tr<_ŠČ0, _ŠČ0>', 'a::Tr<%s, %s>' % (c1, c2), 'any' if c1 == c2 else 'neg'))
     # exhaustive small scope
     A = g.small_types(2)
     B2 = g.small_types(2)
